@@ -116,7 +116,10 @@ def z3_solve(clauses, nvars, seed, assume=()):
         lines.append(' '.join(map(str, c)) + ' 0')
     for l in assume:
         lines.append(f'{l} 0')
-    s = z3.Solver()
+    # a fresh context per call: nothing in z3 (AST tables, symbol numbering, heuristics state) is shared between
+    # calls, so the answer is a function of (clauses, seed) and not of what the process solved before
+    zctx = z3.Context()
+    s = z3.Solver(ctx=zctx)
     s.set('random_seed', seed % (1 << 30))
     s.set('phase_selection', 5)
     s.from_string('\n'.join(lines))
